@@ -88,6 +88,12 @@ CHECKS = {
          'Theorems: all accepted feature representations share one canonical form; the task type depends only on metric and float-ness of the target dtype; the canonical target format is independent of container, width and (n,)/(n,1). '
          'Per run: identical data in every representation (tensor/array, float32/64, int8..int64/uint8, flat/column) is fitted with identical seeds; canonical leaf inputs (recording subclass) and predictions must be bitwise equal, output shapes/dtypes as stated.',
          'partial: thin model; equality of results is observed. Trusted: Coq kernel + vm_compute, recording subclass.'),
+
+ 'C05': ('DESIGN.md §4 C05',
+         'Coq proofs (Reals, lists of any dimension) that each kernel\'s tensor-operation sequence equals the documented closed form + interval-certified correspondence of real kernel-matrix entries + mpmath closed-form oracle',
+         'Theorems for every dimension, transform (none/diagonal/full), exponent, bandwidth: op sequence = exp(-||T(x-z)||_p^q / L^q) (L2, Lpq, product) and ((1-c) mean exp(..)+c)^power (sum-power); the memory-light expansion is the quadratic form of the difference exactly for symmetric M (counterexample without symmetry); symmetry, unit diagonal, range (0,1]. '
+         'Entries of Kernel.get_kernel_matrix (float64/float32, all CPU kernels, every boundary (p,q) combination, bandwidths 1e-2..1e3, coincident/far/high-dimensional points) are certified against the op-sequence model by `interval` and compared with mpmath closed forms; aliases exhaustively; PSD tested numerically.',
+         'partial: the PSD clause (Schoenberg) is stated, not proved. Trusted: Coq kernel, Interval tactic, real-number axioms, mpmath; tolerances 1e-9 (float64), 2e-5 (float32), (sqrt u)^q scale for the light kernel.'),
 }
 
 NOT_YET = 'check not built yet in this session (planned, see DESIGN.md §4)'
